@@ -85,6 +85,7 @@ TM = [
     (7, 0, "??", OK, 1), (7, 0, "%E2%80?", OK, 1), (7, 1, "?&", OK, 1), (7, 2, "?%FF", OK, 1), (7, 4, "?", OK, 1),
     (7, 0, "???", OK, 0), (7, 1, "%E2??", OK, 0),
 ]
+QUICK_INDENT = {(0, 0), (1, 1), (2, 1), (3, 2), (4, 2), (5, 0), (6, 0), (7, 0)}  # MarshalIndent families of the quick tier
 SYN = ["ok", "syntax-error"]
 SEM = ["ok", "semantic-error"]
 ALL3 = ["ok", "syntax-error", "semantic-error"]
@@ -120,10 +121,10 @@ TU = [
     (6, 0, '{"r":?}', SYN, 1), (6, 0, '{"r": [?, "?"] }', SYN, 0), (6, 1, '{"r":nul?}', SYN, 1), (6, 0, '{"rp":?}', SYN, 0), (6, 1, '{"rp":nul?}', SYN, 1), (6, 0, '{"ro":"?"}', SYN, 0),
     (6, 0, '{"v":?}', SYN, 1), (6, 0, '{"v": {"?":?}}', SYN, 0), (6, 1, '{"v":nul?}', SYN, 1),
     # any
-    (8, 0, '??', SYN, 1), (8, 0, '[?,?]', SYN, 1), (8, 0, '{"?":?}', SYN, 1), (8, 0, '"\\??"', SYN, 0), (8, 0, '"\\u00?0"', SYN, 0), (8, 0, '"\\ud83?"', SYN, 1), (8, 0, '"%E2?"', SYN, 1),
+    (8, 0, '??', SYN, 0), (8, 0, '[?,?]', SYN, 1), (8, 0, '{"?":?}', SYN, 1), (8, 0, '"\\??"', SYN, 0), (8, 0, '"\\u00?0"', SYN, 0), (8, 0, '"\\ud83?"', SYN, 1), (8, 0, '"%E2?"', SYN, 1),
     (8, 0, '-?.?', SYN, 0), (8, 0, '1e?', SYN, 0), (8, 1, '{"?":1}', SYN, 1), (8, 0, ' ?1? ', SYN, 0), (8, 0, '"\\ud83d\\ud?00"', SYN, 0),
     # strings
-    (9, 0, '{"s":"??"}', SYN, 1), (9, 0, '{"s":"\\??"}', SYN, 0), (9, 0, '{"s":"%FF?"}', SYN, 1), (9, 1, '{"k":{"?":?}}', SYN, 1), (9, 0, '{"S":?}', ["syntax-error"], 0), (9, 0, '{"s":"\\ud8?0\\udc00"}', SYN, 0),
+    (9, 0, '{"s":"??"}', SYN, 0), (9, 0, '{"s":"\\??"}', SYN, 0), (9, 0, '{"s":"%FF?"}', SYN, 1), (9, 1, '{"k":{"?":?}}', SYN, 0), (9, 1, '{"k":{"a":?}}', SYN, 1), (9, 0, '{"s":"?"}', SYN, 1), (9, 0, '{"S":?}', ["syntax-error"], 0), (9, 0, '{"s":"\\ud8?0\\udc00"}', SYN, 0),
 ]
 # float32/float64 with the `string` option: concrete texts around the float32 / float64 range
 TF = [('{"f":"3.5e38"}', "semantic-error"), ('{"f":"1e39"}', "semantic-error"), ('{"f":"1e300"}', "semantic-error"), ('{"f":"1.5"}', "ok"), ('{"f":"3.4028235e38"}', "ok"),
@@ -132,18 +133,19 @@ TF = [('{"f":"3.5e38"}', "semantic-error"), ('{"f":"1e39"}', "semantic-error"), 
       ('{"f":"Inf"}', None), ('{"f":"0x1p-2"}', "ok"), ('{"f":"1_0"}', "ok"), ('{"f":""}', "semantic-error")]
 # Decoder: (skeleton, target, useNumber, disallow, covers, quick?)
 TD = [
-    ('[1 ,?]', 2, False, False, ["decoded", "token", "more", "no-more"], 1),
+    ('[1 ,?]', 2, False, False, ["decoded", "token", "more"], 1),
+    ('[?]', 2, False, False, ["decoded", "token", "more", "no-more"], 1),
     ('{"a":?} 7', 2, False, False, ["decoded", "token", "more"], 1),
     (' [?]\n[2]', 2, False, False, ["decoded", "token", "more"], 1),
     ('[1 ,?]', 2, True, False, ["decoded", "token"], 1),
     ('{"a":1,"?":2} ', 1, False, True, ["decoded", "token", "error"], 1),
     ('{"a":1,"?":2} ', 1, False, False, ["decoded", "token"], 0),
-    ('?1 ?', 2, False, False, ["decoded", "token", "error"], 1),
+    (' 1 ?', 2, False, False, ["decoded", "token", "error"], 1),
     ('1?2', 2, True, False, ["decoded", "token"], 0),
     ('{"a" :? , "b":2}', 2, False, False, ["decoded", "token"], 0),
     ('[1]?', 2, False, False, ["decoded", "token", "token-eof"], 1),
     # Decode into an any (needs reflect.Value.Equal on a zero Value and Value.NumMethod in the engine)
-    ('[1 ,?]', 0, False, False, ["decoded", "token", "more", "no-more"], 0),
+    ('[1 ,?]', 0, False, False, ["decoded", "token", "more"], 0),
     ('[1 ,?]', 0, True, False, ["decoded", "token"], 0),
     ('["?",{"b":[?]}]', 0, False, False, ["decoded", "token"], 0),
     ('[tru?,nul?]', 0, False, False, ["decoded", "token"], 0),
@@ -163,6 +165,8 @@ def typed_obligations(q):
         if q and not quick:
             continue
         for mode in (0, 1, 2):
+            if q and mode and (kind, var) not in QUICK_INDENT:
+                continue
             L.append(ob("tmarshal/k%d/v%d/m%d/%s" % (kind, var, mode, t), "v1", "VerifC09TMarshal", [kind, var, mode, t], covers=cov, **kw))
     for kind, var, t, cov, quick in TU:
         if q and not quick:
